@@ -1208,3 +1208,12 @@ def rule_floordiv(rule, files):
         yield ob(rule, "mir_eval/", "floordiv:census", True, "%d floor divisions examined" % n)
 
     return run
+
+
+def dim_of(t):
+    """(array term, k) for `x.shape[k]` and (x, 0) for `len(x)` (the canonical spelling of x.shape[0]), else None"""
+    if t.op == "sub" and t.a[0].op == "attr" and t.a[0].a[1] == "shape" and t.a[1].op == "const" and isinstance(t.a[1].a[0], float):
+        return t.a[0].a[0], int(t.a[1].a[0])
+    if t.op == "call" and call_name(t) == "builtins.len" and len(t.a[1]) == 1:
+        return t.a[1][0], 0
+    return None
